@@ -31,6 +31,9 @@ pub enum WrOp {
     Epipe,
     Reset,
     Zero,
+    /// any other errno, reported as a raw OS error (ENOBUFS, ENOMEM, EIO, ...): not an interrupt,
+    /// so the output is lost and the connection reports closed
+    Errno(i32),
 }
 
 pub const LIVELOCK_CALLS: u64 = 200_000;
@@ -126,6 +129,7 @@ impl io::Write for SimStream {
             WrOp::Eagain => Err(io::Error::from_raw_os_error(libc::EAGAIN)),
             WrOp::Epipe => Err(io::Error::from_raw_os_error(libc::EPIPE)),
             WrOp::Reset => Err(io::Error::from_raw_os_error(libc::ECONNRESET)),
+            WrOp::Errno(e) => Err(io::Error::from_raw_os_error(e)),
         }
     }
     fn flush(&mut self) -> io::Result<()> {
